@@ -174,6 +174,47 @@ def run_all(seed, tier):
         m = magpy.magnet.TriangularMesh(vertices=vi, faces=fi, polarization=(0, 0, 1), check_open="skip", check_disconnected="skip", check_selfintersecting="skip", reorient_faces=False)
         if not m.check_selfintersecting(mode="ignore"):
             bad.append((dict(solid=sname, derived="two interpenetrating copies"), "interpenetrating parts are not reported as self-intersecting"))
+    # one-sided piercing: a thin closed spike through the interior of one face of a box, every face ordering
+    bv, bf = box(2, 2, 1)
+    # base inside the box, apex above the top face, away from the diagonal edge that splits the top face into two triangles:
+    # only the spike's edges pierce a box triangle, no box edge pierces the spike (one-sided piercing)
+    sv = np.array([(1.3, 0.4, 0.5), (1.5, 0.4, 0.5), (1.4, 0.6, 0.5), (1.4, 0.47, 1.8)], dtype=float)
+    sf = np.array([(0, 2, 1), (0, 1, 3), (1, 2, 3), (0, 3, 2)])
+    vv = np.concatenate([bv, sv])
+    for order in ["box first", "spike first"] + [f"perm{i}" for i in range(4 if tier == "quick" else 20)]:
+        ff = np.concatenate([bf, sf + len(bv)]) if order == "box first" else np.concatenate([sf + len(bv), bf])
+        if order.startswith("perm"):
+            ff = ff[rng.permutation(len(ff))]
+        n += 1
+        distinct += 1
+        m = magpy.magnet.TriangularMesh(vertices=vv, faces=ff, polarization=(0, 0, 1), check_open="skip", check_disconnected="skip", check_selfintersecting="skip", reorient_faces=False)
+        if not m.check_selfintersecting(mode="ignore"):
+            bad.append((dict(solid="box pierced by a spike", order=order), "a spike piercing one face of a box is not reported as self-intersecting"))
+    # reorientation of a closed but disconnected mesh whose parts are interleaved in the face list, with flipped faces
+    for sname in ("box", "prism"):
+        v, f = solids[sname]
+        if signed_volume(v, f) < 0:
+            f = f[:, ::-1]
+        shift = np.array([7.0, 1.0, 0.5])
+        vd = np.concatenate([v, v + shift])
+        fd = np.concatenate([f, f + len(v)])
+        ref = magpy.getB([magpy.magnet.TriangularMesh(vertices=v, faces=f, polarization=(.1, .2, .3), reorient_faces=False),
+                          magpy.magnet.TriangularMesh(vertices=v + shift, faces=f, polarization=(.1, .2, .3), reorient_faces=False)], obs, sumup=True)
+        for var in range(4 if tier == "quick" else 20):
+            perm = rng.permutation(len(fd))
+            f2 = fd[perm].copy()
+            flips = rng.random(len(f2)) < 0.35
+            f2[flips] = f2[flips][:, ::-1]
+            n += 1
+            distinct += 1
+            m = magpy.magnet.TriangularMesh(vertices=vd, faces=f2, polarization=(.1, .2, .3), check_disconnected="ignore")
+            ffm = np.array(m.faces)
+            comps = oracle_components(ffm)
+            ok_or = consistently_oriented([tuple(x) for x in ffm]) and len(comps) == 2 and all(signed_volume(vd, ffm[c_]) > 0 for c_ in comps)
+            if not ok_or:
+                bad.append((dict(solid=sname + " + disjoint duplicate, interleaved", variant=var, flipped=int(flips.sum())), "after reorientation not all faces of both parts point outwards"))
+            elif not np.allclose(magpy.getB(m, obs), ref, rtol=1e-8, atol=1e-12):
+                bad.append((dict(solid=sname + " + disjoint duplicate, interleaved", variant=var), "field differs from the sum of the two solids"))
     return n, distinct, bad
 
 
